@@ -2,7 +2,7 @@
    (non-negative, sum 1) along every iteration, and on OPTIMAL the L1 residual of the damped equation is
    bounded by  d * n * tol.  All statements are for arbitrary graphs (no size bound).
    Toolbox and the double-sum exchange live in C15/PageRankLemmas.v. *)
-From Coq Require Import List Arith Bool ZArith QArith Qabs Qminmax Lia Lra Psatz.
+From Coq Require Import List Arith Bool ZArith QArith Qabs Qminmax Lia Lqa.
 From SV Require Import C15.Graph C15.PageRank C15.PageRankLemmas.
 Import ListNotations.
 Open Scope Q_scope.
